@@ -97,6 +97,12 @@ def run_zinc(rep, tier, want):
             pick = rng.sample(items, rng.randint(2, 3))
             docs.append(({'t': 'multi', 'of': [m for m, _ in pick], 'payload': 'multi'},
                          [make(cat, r) for _, r in pick], False))
+        # seeded random deep layouts (nesting depth <= 3)
+        for k in range(150 if tier == 'quick' else 3000):
+            ver = rng.choice(['2.0', '3.0', '3.0'])
+            rs = seed() * 1000003 + k
+            docs.append(({'t': 'random', 'ver': ver, 'payload': 'random', 'n': k, 'rseed': rs},
+                         [gengrid.Catalogue(hs, random.Random(rs)).random_grid(ver)], True))
         for meta, grids, single in docs:
             try:
                 ab = A.doc(grids)
@@ -220,6 +226,8 @@ def replay(prop, path):
     rep = Report(prop, 'quick')
 
     def build(m):
+        if m['t'] == 'random':
+            return gengrid.Catalogue(hs, random.Random(m['rseed'])).random_grid(m['ver'])
         if m['t'] == 'single':
             return cat.place({'kind': m['kind'], 'pos': m['pos'], 'ver': m['ver']}, m['payload'])
         return cat.pair({'kind': m['kind'], 'kind2': m['kind2'], 'ver': m['ver']}, m['payload'], m['payload2'])
